@@ -406,9 +406,12 @@ def qPlainCanon (v : Option Str) : Option Str :=
     let tok (m : Str) : Bool := !m.isEmpty && m.all fun c => isAlpha c || isDigit c || c = '-' || c = '.' || c = '_' || c = '/' || c = '+' || c.toNat ≥ 128
     -- a member is a plain token, or a token with parameters "name=token" none of which is a weight ("q"): the
     -- parameters belong to the member ("text/plain;charset=utf-8" is not "text/plain"), their order does not matter
-    let parts (m : Str) : List Str := (splitOnComma (m.map fun c => if c = ';' then ',' else c) []).map trimOWS
+    -- (the ";" that separate parameters are those outside quoted-strings: a parameter value may be a quoted-string,
+    --  RFC 9110 §5.6.6, and a ";" or "," inside one is a byte of the value)
+    let parts (m : Str) : List Str := (splitList (m.map fun c => if c = ';' then ',' else if c = ',' then ';' else c) false []).map
+      fun p => trimOWS (p.map fun c => if c = ';' then ',' else if c = ',' then ';' else c)
     let paramOk (p : Str) : Bool := match cutAt '=' p with
-      | some (n, val) => tok n && tok val && lowerASCII n ≠ ['q']
+      | some (n, val) => tok n && (tok val || (val.head? = some '"' && wellQuoted val)) && lowerASCII n ≠ ['q']
       | none => false
     let okMember (m : Str) : Bool := match parts m with
       | main :: ps => tok main && ps.all paramOk
